@@ -211,5 +211,18 @@ def directed():
             yield mk_case(dtype, a, "ufunc2", vals2=b, dtype2=dtype, uf=uf, style="runs", vclass="small")
 
 
+def sweep(tier):
+    """every array of length 1..5 (thorough: ..7) over three symbols: encode, and every stepped / reversed whole-array slice"""
+    import itertools
+    maxL = 5 if tier == "quick" else 7
+    for L in range(1, maxL + 1):
+        for vals in itertools.product([0, 1, 2], repeat=L):
+            vals = list(vals)
+            yield mk_case("int64", vals, "encode", style="runs", vclass="small")
+            if L >= 2 and (tier != "quick" or sum(vals) % 2 == 0):
+                for st in (2, -1, -2, 3):
+                    yield mk_case("int8", vals, "slice", slice=slice(None, None, st), style="runs", vclass="small")
+
+
 def random_case(rng, tier):
     return gen_case(rng, tier)
